@@ -177,6 +177,15 @@ KINDS = ["Buffer", "RWBuffer", "ByteAddressBuffer", "RWByteAddressBuffer", "Buff
          "SamplerComparisonState", "RaytracingAccelerationStructure", "cbuffer"]
 
 
+KIND_TEXT = {"Texture2D": "Texture2D<float4>", "StructuredBuffer": "StructuredBuffer<float4>", "ConstantBuffer": "ConstantBuffer<CbS>",
+             "RWTexture2D": "RWTexture2D<float4>", "Buffer": "Buffer<float4>"}
+SPELL_KINDS = ["Texture2D", "RWTexture2D", "StructuredBuffer", "ByteAddressBuffer", "Buffer", "ConstantBuffer", "SamplerState",
+               "BufferAddress", "RWBufferAddress", "RaytracingAccelerationStructure"]
+SPELLINGS_PLAIN = ["Ta", "Tc", "Taa", "Tca", "Tac", "TNa", "TNca", "Tk", "Tx", "Tak", "Tax", "Tckx"]
+SPELLINGS_ARRAY = ["Td3", "Te3", "Tad3", "Tcd3", "Td3a", "Td3c", "Tce3", "TNd3", "TNad3c", "Td3k", "Te3x", "Td2d3"]
+SPELLINGS_PARAM = ["Tp", "Tap", "TNd3p", "TNp"]
+
+
 def search(ctx):
     """small inputs enumerated for the witness search after a broken obligation: every bindable kind alone and
     next to a second resource, with and without array / explicit group (in each spelling) / static sampler / bindless,
@@ -216,6 +225,34 @@ def search(ctx):
         for sh in "iefgwdstcbvamz":
             out.append("\t".join(["C05.meta", tgt, "name=P0", "0", "g_a:Texture2D:-:-:0:0:e;g_c:cbuffer:-:-:0:0:e", "",
                                    f"cs_0:Compute:0{sh},1{sh}:::8.4.1", "P0:-:0"]))
+        # type spellings: every bindable kind declared through a typedef of the object, of an array of it, of a typedef,
+        # with const on the typedef / on the global, typedefs in a namespace, template argument through a typedef,
+        # `extern` written out, array of a typedef'd element, typedef'd array with a declarator dimension (2-D)
+        for kind in SPELL_KINDS:
+            templ = "<" in KIND_TEXT.get(kind, "")
+            for arr, spells in [("-", SPELLINGS_PLAIN + SPELLINGS_ARRAY + (SPELLINGS_PARAM if templ else [])),
+                                ("2", SPELLINGS_PLAIN + (["Td3", "Tce2"] if kind == "Texture2D" else []))]:
+                for sp in spells:
+                    if kind.startswith("Sampler") and any(c in sp for c in "de"):
+                        # ... and as a static sampler (one sampler: no array spelling)
+                        continue
+                    for group, bl in [("-", "0"), ("1", "1")]:
+                        has_arr = arr != "-" or any(c in sp for c in "de")
+                        if bl == "1" and (not has_arr or "Address" in kind):
+                            bl = "0"
+                        res = f"g_a:{kind}:{group}:{arr}:0:{bl}:e:{sp};g_b:Texture2D:-:-:0:0:e"
+                        twod = arr != "-" and any(c in sp for c in "de") or sp in ("Td2d3",)
+                        for mode, uses in [("name=P0", "" if twod else "0,1"), ("nopipeline", "1")]:
+                            out.append("\t".join(["C05.meta", tgt, mode, "0", res, "", f"cs_0:Compute:{uses}:::8.4.1", "P0:-:0"]))
+            if kind.startswith("Sampler"):
+                for sp in SPELLINGS_PLAIN:
+                    out.append("\t".join(["C05.meta", tgt, "name=P0", "0", f"g_a:{kind}:-:-:1:0:e:{sp}+sp5;g_b:Texture2D:-:-:0:0:e", "",
+                                           "cs_0:Compute:1:::8.4.1", "P0:-:0"]))
+        for sp in ["Ta", "Td2", "Tcd2k"]:
+            # static / struct / non-resource globals spelled through typedefs; explicit indices next to a typedef of the object
+            for r in [f"g_a:Texture2D:-:-:0:0:s:{sp}", f"g_a:RayDesc:-:-:0:0:e:{sp}"] + \
+                     ([f"g_a:struct:-:-:0:0:e:{sp}", f"g_a:Texture2D:1:-:0:0:e:gr+ri3+{sp}", f"g_a:Texture2D:1:-:0:0:e:gv+vi2+{sp}"] if sp == "Ta" else []):
+                out.append("\t".join(["C05.meta", tgt, "name=P0", "0", r + ";g_b:Texture2D:-:-:0:0:e", "", "cs_0:Compute:1:::8.4.1", "P0:-:0"]))
         # declaration shapes the allocator leaves alone
         for r in ["g_a:Texture2D:-:2x3:0:0:e", "g_a:struct:-:-:0:0:e", "g_a:Texture2D:-:u:0:0:e", "g_a:Texture2D:-:-:0:0:s",
                   "g_a:Texture2D:-:-:0:0:e:ns", "float16_t:Texture2D:-:-:0:0:e;float16_t_0:cbuffer:-:-:0:0:e",
@@ -256,7 +293,7 @@ def custom(ctx):
 SPEC = {
     "id": "C05",
     "gens": ["SlotTables", "CompileTables", "MetaTables", "Reserved"],
-    "lean_modules": ["RsslVerif.Thm.C05"],
+    "lean_modules": ["RsslVerif.Thm.C05", "RsslVerif.Thm.C05Layers"],
     "theorems": [T + n for n in [
         "source_shape_as_modelled", "descriptor_tables_agree", "register_class_of_descriptor", "msl_entry_names_agree",
         "annot_matches_meta_hlsl", "annot_matches_meta_msl", "non_extern_global_unbound",
@@ -268,7 +305,12 @@ SPEC = {
         "entry_named_and_defined", "reported_thread_group_size_is_emitted", "stage_records_follow_properties",
         "reported_size_is_the_typers_record", "pipeline_names_distinct", "reported_name_denotes_one_symbol", "hlsl_entry_point_unambiguous",
         "reported_name_not_reserved", "name_kept_when_unique_and_free", "hlsl_cbuffer_bypasses_name_map_witness",
-        "same_leaf_name_in_two_namespaces_witness"]],
+        "same_leaf_name_in_two_namespaces_witness",
+        # Thm/C05Layers.lean: type spellings / layer chains
+        "peel_facts_as_modelled", "peels_read_layers", "descriptor_kind_count_from_layers",
+        "reflection_peel_agrees_with_allocator_peel", "buffer_address_test_agrees_with_allocator_peel",
+        "spelling_kind_count", "typed_metadata_is_peeled_metadata", "meta_bijective_hlsl_typed",
+        "typed_export_total_or_refused", "array_first_peel_misreads_typedef_arrays_witness"]],
     "harness": "c05",
     "nontrivial": nontrivial,
     "finding_key": finding_key,
